@@ -23,7 +23,7 @@ def plan(tier):
                 'database under the same virtual clock; a cell is (kind of last prefix request, probe, '
                 'same/other identity, version change, outcome)',
         'min_monitor': {'twin_pairs_compared': 300, 'probes_identifierless': 100, 'connection_twin_pairs_compared': 80,
-                        'fresh_process_twins_compared': 100, 'beside_answers_compared': 200},
+                        'fresh_process_twins_compared': 100, 'beside_answers_compared': 200, 'changing_identity_twin_pairs_compared': 100},
         'assumptions': ['probes are random-free so the twin is comparable byte for byte',
                         'copying the SQLite file between requests yields the committed store'],
     }
@@ -32,7 +32,8 @@ def plan(tier):
 def cases(tier, seed):
     n = 192 if tier == 'quick' else 1200
     return [{'hist': i} for i in range(n)] + [{'conn': i} for i in range(128 if tier == 'quick' else 800)] + \
-        [{'beside': i} for i in range(16 if tier == 'quick' else 160)]
+        [{'beside': i} for i in range(16 if tier == 'quick' else 160)] + \
+        [{'connauth': i} for i in range(8 if tier == 'quick' else 80)]
 
 
 LAST_KINDS = ['create', 'register', 'create_key_pair', 'derive_key', 'batch_create_get',
@@ -406,9 +407,73 @@ def run_beside(ctx, case):
             srv.close()
 
 
+def run_connauth(ctx, case):
+    """Who the client is belongs to each request too: with an authentication plug-in configured (the SLUGS directory service,
+    stubbed behind requests.get) the user's groups, or the user's existence, change between two requests of one
+    connection.  Every later request on that connection must be answered as the same request on a NEW connection made at
+    that moment (where the identity is necessarily established afresh): objects under a policy whose group section grants
+    access are read, listed and located by a member and by a former member."""
+    import kmip.services.server.auth.slugs as slugs_mod
+    from kv.checks import c17
+    rng = ctx.rng()
+    rig.install_clock(rig.VClock(step=0))
+    real_get = slugs_mod.requests.get
+    slugs_mod.requests.get = c17.fake_get
+    try:
+        with rig.scratch_dir() as d:
+            pols = rig.default_policies()
+            gsec = {t: {op: enums.Policy.ALLOW_ALL for op in ops_} for t, ops_ in pols['default']['preset'].items()}
+            pols['team'] = {'groups': {'g1': gsec}, 'preset': pols['default']['preset']}
+            srv = rig.Server(d + '/db.sqlite', policies=pols)
+            try:
+                obj = store.register(srv, 'sym', 'bob', rng, policy='team', names=['team-key'], state='pre', value=FIXED_KEY)
+                own_ = store.register(srv, 'sym', 'alice', rng, names=['alices-key'], state='pre', value=FIXED_KEY)
+                if obj is None or own_ is None:
+                    ctx.unsure('setup of a C11 changing-identity history failed')
+                    return
+                der = rig.make_cert(('alice',), 'client')
+                for rnd in range(8):
+                    host = rng.choice(('flipgroups', 'flipgroups', 'flip'))
+                    settings = [('auth:slugs', {'enabled': 'True', 'url': 'http://%s/' % host})]
+                    frames = []
+                    for _ in range(rng.randrange(2, 6)):
+                        v = rng.choice(rig.VERSIONS)
+                        op = rng.choice((op_get(obj.uid), op_get_attributes(obj.uid, ['Name', 'State']), op_locate(), op_get(own_.uid),
+                                         op_get_attribute_list(obj.uid), op_locate([rig.attr(E.AttributeType.NAME, name_value('team-key'))])))
+                        frames.append(rig.encode_request(rig.build_request(v, [op]), v))
+                    c17.FLIP['calls'] = 0
+                    sent, esc = rig.session_roundtrip(srv.engine, b''.join(frames), der, enable_tls_client_auth=True, auth_settings=settings)
+                    ctx.ev()
+                    ctx.cell('connauth', host, len(frames))
+                    if esc is not None or len(sent) != len(frames):
+                        ctx.violation('connauth|no-response', 'a connection under a changing identity got %d answers to %d requests (%r)'
+                                      % (len(sent), len(frames), esc), None)
+                        continue
+                    for i in range(1, len(frames)):
+                        # the directory has answered the first request's two queries: from now on it gives the later answer
+                        c17.FLIP['calls'] = 2
+                        tsent, tesc = rig.session_roundtrip(srv.engine, frames[i], der, enable_tls_client_auth=True, auth_settings=settings)
+                        ctx.count('changing_identity_twin_pairs_compared')
+                        if tesc is not None or len(tsent) != 1:
+                            continue
+                        a, b = rig.Result(sent[i]), rig.Result(tsent[0])
+                        if a.norm() != b.norm():
+                            ctx.violation('connauth|%s' % host, 'request %d of a connection is answered %s; on a new connection made at that '
+                                          'moment %s (the directory service changed the user\'s %s after the first request)'
+                                          % (i + 1, a.brief(), b.brief(), 'groups' if host == 'flipgroups' else 'existence'),
+                                          {'frames': [f.hex()[:300] for f in frames]})
+                            break
+            finally:
+                srv.close()
+    finally:
+        slugs_mod.requests.get = real_get
+
+
 def run_case(ctx, case):
     if 'beside' in case:
         return run_beside(ctx, case)
+    if 'connauth' in case:
+        return run_connauth(ctx, case)
     if 'conn' in case:
         return run_connection(ctx, case)
     rng = ctx.rng()
